@@ -388,6 +388,13 @@ func lifeMain(p LifeParams) {
 		if ackInFlight {
 			checkTracked(fmt.Sprintf("after the re-open of segment %d completed", seg))
 		}
+		if answer == 2 && want("delivery") {
+			// the re-request names the branch of the fail-over log that came with the rollback and starts at R
+			reqs := c.RequestsOf("openstream")
+			if last := reqs[len(reqs)-1]; len(last.Args) > 2 && last.Args[1] != uuid {
+				fail("segment %d: after the rollback the vBucket was re-requested on branch %d, the fail-over log of the server names %d for that position", seg, last.Args[1], uuid)
+			}
+		}
 		if p.RetryAck && answer != 2 && (want("delivery") || want("position")) {
 			// the stream request that re-opened the vBucket starts at the position settled by then
 			reqs := c.RequestsOf("openstream")
